@@ -55,6 +55,8 @@ EXHAUSTIVE = ('all 18 x 18 (current, target) pairs of named task states x 2 deli
               'states._task_state_progress against its docstring, and the pair end-to-end '
               '(subject driven to current, then one batch [bystander, subject->target, bystander])')
 
+BUDGET = {'quick': 90, 'thorough': 540}
+
 # ------------------------------------------------------------------------------
 # reference model (A.1): literal copy of the documented state model
 ORDER = ['NEW',
